@@ -23,7 +23,155 @@ def _decode(v):
     view = v // 1_000_000 - 1
     return ("uget", view, v % 1_000_000, 0)
 
+def _fmt(nums):
+    out = []
+    for v in nums:
+        k, view, a, b = _decode(v)
+        out.append("%s(%s%d)" % (k, "" if k == "uset" else "view %d, " % view, a))
+    return "[" + ", ".join(out) + "]"
+
+def _ksteps_parse(cells):
+    """len len2 SEP step* status  ->  (len, len2, [(drv, cb reads, writes, panic)], status cells)"""
+    parts = _split(cells)
+    if len(parts) < 2 or len(parts[0]) != 2:
+        return None
+    steps = []
+    for p in parts[1:-1]:
+        ints = [c[1] for c in p if c[0] == 0]
+        panic = [c[1] for c in p if c[0] == 5]
+        if not ints:
+            return None
+        nd = ints[0]
+        drv = ints[1:1 + nd]
+        rest = ints[1 + nd:]
+        steps.append((drv, [v for v in rest if v >= 0], [-v - 1 for v in rest if v < 0], panic))
+    return parts[0][0][1], parts[0][1][1], steps, parts[-1]
+
+def _direct_steps(length, length2, steps, status, reads_of=lambda st: st[0] + st[1]):
+    """the property itself on the implementation's trace"""
+    lens = {0: length, 1: length2}
+    seen = collections.Counter()
+    for n, st in enumerate(steps):
+        for v in reads_of(st):
+            k, view, a, b = _decode(v)
+            if k == "uget" and not a < lens.get(view, 0):
+                return "step %d: unchecked element access at index %d of a view of length %d" % (n, a, lens.get(view, 0))
+        for w in st[2]:
+            if not w < length:
+                return "step %d: write to output slot %d of a buffer of length %d" % (n, w, length)
+            seen[w] += 1
+    dup = sorted(i for i, v in seen.items() if v > 1)
+    if dup:
+        return "output slot written more than once: %s" % dup
+    if status and status[0][0] == 0 and len(status) > 1:
+        slots = [c[1] for c in status[1:]]
+        if any(x == 0 for x in slots):
+            return "output exposed with slot(s) %s never written" % [i for i, x in enumerate(slots) if x == 0]
+    return None
+
+def _status_cmp(si, sm):
+    pi = [c for c in si if c[0] == 5]; pm = [c for c in sm if c[0] == 5]
+    if bool(pi) != bool(pm):
+        return "panic mismatch: impl %s, model %s" % (si[:1], sm[:1])
+    if pi:
+        # an assert! with a message the harness does not classify (kind 4, e.g. "the second series must not be
+        # shorter than the first") and the model's AssertFail (kind 2) are the same deliberate panic; arithmetic
+        # overflow / underflow (0, 1) and unwrap (3) must agree exactly
+        norm = lambda k: 2 if k in (2, 4) else k
+        return None if norm(pi[0][1]) == norm(pm[0][1]) else "panic kind differs: impl %d, model %d" % (pi[0][1], pm[0][1])
+    if not si or not sm or si[0][1] != sm[0][1]:
+        return "number of outputs differs: impl %s, model %s" % (si[:1], sm[:1])
+    return None
+
+def _reads_cmp(n, what, ri, rm, first_segment_inclusion=False):
+    """model multiset <= impl multiset (the implementation performs every read of the model, as often), and
+       support(impl) = support(model) (it reads no index the model never reads; a re-read is not an alarm)"""
+    ci, cm = collections.Counter(ri), collections.Counter(rm)
+    missing = cm - ci
+    if missing:
+        return "%s %d: the model reads %s, the implementation does not (impl %s, model %s)" % (
+            what, n, _fmt(sorted(missing.elements())), _fmt(sorted(ri)), _fmt(sorted(rm)))
+    if not first_segment_inclusion:
+        extra = sorted(set(ci) - set(cm))
+        if extra:
+            return "%s %d: the implementation reads %s, the model never does (impl %s, model %s)" % (
+                what, n, _fmt(extra), _fmt(sorted(ri)), _fmt(sorted(rm)))
+    return None
+
+def _compare_ksteps(impl, model):
+    pi = _ksteps_parse(impl)
+    if pi is None:
+        return "malformed implementation step trace"
+    length, length2, si, sti = pi
+    d = _direct_steps(length, length2, si, sti)
+    if d:
+        return d
+    pm = _ksteps_parse([(0, length, 0), (0, length2, 0), (9, 0, 0)] + list(model))
+    if pm is None:
+        return "malformed model step trace"
+    _, _, sm, stm = pm
+    for n in range(min(len(si), len(sm))):
+        (di, ri, wi, xi), (dm, rm, wm, xm) = si[n], sm[n]
+        if di != dm:
+            return "step %d: driver reads differ: impl %s, model %s" % (n, _fmt(di), _fmt(dm))
+        r = _reads_cmp(n, "step", ri, rm)
+        if r:
+            return r
+        if sorted(wi) != sorted(wm):
+            return "step %d: writes differ: impl %s, model %s" % (n, sorted(wi), sorted(wm))
+        if bool(xi) != bool(xm):
+            return "step %d: panic mismatch: impl %s, model %s" % (n, xi, xm)
+    if len(si) != len(sm):
+        return "number of callback steps differs: impl %d, model %d" % (len(si), len(sm))
+    return _status_cmp(sti, stm)
+
+def _compare_vsegs(impl, model):
+    """vrank cut at its writes; a segment = (reads as class representatives, [rep of the slot, raw slot])"""
+    pi = _ksteps_parse_segs(impl)
+    if pi is None:
+        return "malformed implementation segment trace"
+    length, _, si, sti = pi
+    d = _direct_steps(length, length, [([], r, w[1:], []) for (r, w) in si], sti, reads_of=lambda st: st[1])
+    if d:
+        return d
+    pm = _ksteps_parse_segs([(0, length, 0), (0, length, 0), (9, 0, 0)] + list(model))
+    if pm is None:
+        return "malformed model segment trace"
+    _, _, sm, stm = pm
+    for n in range(min(len(si), len(sm))):
+        (ri, wi), (rm, wm) = si[n], sm[n]
+        # segment 0 of the implementation also holds the comparator reads of sort_unstable_by (not modelled)
+        r = _reads_cmp(n, "segment", ri, rm, first_segment_inclusion=(n == 0))
+        if r:
+            return r
+        if wi[:1] != wm[:1]:
+            return "segment %d: write order differs modulo ties: impl writes class %s, model class %s" % (n, wi[:1], wm[:1])
+    if len(si) != len(sm):
+        return "number of writes differs: impl %d segments, model %d" % (len(si), len(sm))
+    wri = collections.Counter(w[1] for (_, w) in si if len(w) > 1)
+    wrm = collections.Counter(w[1] for (_, w) in sm if len(w) > 1)
+    if wri != wrm:
+        return "slots written differ: impl %s, model %s" % (sorted(wri.elements()), sorted(wrm.elements()))
+    return _status_cmp(sti, stm)
+
+def _ksteps_parse_segs(cells):
+    parts = _split(cells)
+    if len(parts) < 2 or len(parts[0]) != 2:
+        return None
+    segs = []
+    for p in parts[1:-1]:
+        ints = [c[1] for c in p if c[0] == 0]
+        segs.append(([v for v in ints if v >= 0], [-v - 1 for v in ints if v < 0]))
+    return parts[0][0][1], parts[0][1][1], segs, parts[-1]
+
 def compare(cmp, impl, model):
+    if cmp == "custom:ksteps":
+        return _compare_ksteps(impl, model)
+    if cmp == "custom:vsegs":
+        return _compare_vsegs(impl, model)
+    return _compare_flat(cmp, impl, model)
+
+def _compare_flat(cmp, impl, model):
     parts = _split(impl)
     if len(parts) < 2 or len(parts[0]) != 2:
         return "malformed implementation trace"
@@ -79,7 +227,16 @@ CFG = dict(
          "part=kernel (sampled): 12 (thorough 60) structured series x windows 0..=len+2 x min_periods {omitted, 0, random} x all 27 "
          "rolling entry points (returned, caller buffer, Vec fast path) and vrank / vpartition / varg_partition / vquantile / "
          "vmedian: the trace is checked directly (reads in bounds, slices inside 0..=len, every slot written exactly once before "
-         "exposure, clean panic otherwise). nt=0 marks empty input.",
+         "exposure, clean panic otherwise). "
+         "part=ktrace (structured): 9 series families (increasing / decreasing = the minimum / maximum expires at every step, zigzag, "
+         "plateau, null newcomers, extremes then nulls, all null, trailing nulls, random) x len {0,1,2,4,6} (thorough {0,1,2,3,5,6,8,9}) x "
+         "windows {0,1,2,3,len-1,len,len+1} x min_periods {omitted, 1, w, 0} x ts_vmin / ts_vmax / ts_vargmin / ts_vargmax / ts_vrank / "
+         "ts_vminmaxnorm / ts_vregx_resid_{mean,std,skew} (second series equal / shorter / longer), caller-buffer path (two-phase index "
+         "body) and returned path (iterator body, collected into a container that marks every item): the implementation's access trace is "
+         "cut into callback steps and compared with the model's steps cell by cell (driver reads exactly; callback reads: model multiset "
+         "<= impl multiset and equal support; writes exactly; number of steps; panic / number of outputs); tag rescan=1: some callback "
+         "read at least two different indices. vrank on the same series x (pct, rev): trace cut at its writes, compared modulo ties. "
+         "nt=0 marks empty input.",
     theorem_hint="Props/C10.v",
     level_text="Proof, drivers: running the driver model on the list of positions makes every fetched argument the index "
                "it was fetched from; theorems (all series lengths, all windows incl. 0 and > len): every unchecked read of every "
@@ -114,12 +271,26 @@ CFG = dict(
                "correspondence; std's sort_unstable_by / select_nth_unstable_by enter only as 'a permutation of the input' "
                "(insertion-sort model) and their comparator calls are not traced; the internal Vec<usize> of vrank is a std "
                "container: its model is a list and the harness cannot instrument it (exploration-strength on the Rust side: the "
-               "instrumented TraceView / TraceOut monitor every kernel run directly); the model-side KERNEL traces are tied to the code "
-               "through the value correspondence of the erased models (C03/C04/C05/C06/C12 runs) and are not yet compared cell by "
-               "cell with the instrumented implementation traces (only the driver traces are).",
+               "instrumented TraceView / TraceOut monitor every kernel run directly). "
+               "Kernel traces step by step (part 12): the model trace is also given as a list of steps (one per callback invocation: "
+               "driver reads, callback accesses, slot write, panic); theorems: the steps concatenate to kernel_trace (nothing added, dropped "
+               "or reordered) for every traced callback / window / body; step i is position i (driver reads of position i, write of slot i "
+               "and nothing else, callback reads inside the window of position i - for each of the five kernels, both bodies, both series "
+               "lengths); at most one step per position, only the last can carry a panic, exactly one per position and no panic whenever "
+               "the erased run returns; the emitted sorted read numbers are a permutation of the callback's reads; vrank cut at its writes "
+               "concatenates to the observable trace, writes every slot exactly once, every segment in bounds; vrank_tr_fast (the bind "
+               "evaluated once, runnable under vm_compute) = vrank_tr. These step traces ARE compared cell by cell with the instrumented "
+               "implementation on every run (part=ktrace), so the model-side kernel traces are now tied to the code by a trace "
+               "correspondence, not only through the values of the erased models. Still not traced on the model side: the comparator "
+               "reads of sort_unstable_by inside vrank (the implementation's first segment is compared by inclusion), the reads of the "
+               "internal Vec<usize>. Model corner reported: rolling2_apply_idx_default (Model/Driver.v) tests window 0 on the zipped series, "
+               "the code on self (differs only for window 0, non-empty self, empty second series, iterator body: code panics, model "
+               "returns an empty result; no access on either side).",
     level_note="Trusted: Coq kernel; model of view.rs driver bodies; the instrumented containers implement tevec's public traits "
                "in the harness (Vec's own fast-path reads cannot be observed, only its writes); std Vec internals of vrank "
                "(idx_sorted) are not instrumented; memory effects themselves (an actual out-of-bounds write) are outside Coq.",
     trusted=["instrumented containers TraceView/TraceOut (harness/src/trace.rs) faithfully log the accessor calls made through the "
-             "Vec1View / Vec1 / UninitVec / UninitRefMut traits"],
+             "Vec1View / Vec1 / UninitVec / UninitRefMut traits",
+             "StepOut (harness/src/bin/c10.rs): collect_from_iter pulls the lazy iterator one item at a time and logs a marker after "
+             "each item, so the reads between two markers are the reads of one callback invocation"],
 )
